@@ -11,7 +11,8 @@ c_jsonrt(void)
     free(t.p);
 }
 
-const cmd_t cmds_misc[] = {
+static const cmd_t cmds_misc[] = {
     { "jsonrt", c_jsonrt },
     { NULL, NULL }
 };
+REGISTER(cmds_misc)
